@@ -623,7 +623,7 @@ func (e *Engine) paramsFresh(v ssa.Value, at ssa.Instruction, depth int) string 
 		for _, cal := range e.calleesOf(c) {
 			mut := e.mutatesParamsSlices(cal)
 			for ai, a := range c.Common().Args {
-				if mut[ai] && vkey(a, 0) == vk && (Dominates(c, at) || canReach(c, at)) {
+				if mut[ai] && sameParamsValue(a, v, vk) && (Dominates(c, at) || canReach(c, at)) {
 					bad = "were handed to " + e.FnKey(cal) + " before, which rewrites elements of their coin slices in place (the slices are shared with the caller's copy)"
 				}
 			}
@@ -670,4 +670,19 @@ func (e *Engine) paramsFresh(v ssa.Value, at ssa.Instruction, depth int) string 
 		return "arrive as a parameter of a function without call sites"
 	}
 	return ""
+}
+
+// sameParamsValue: a and v denote the same v1.Params value — the same SSA value, or two loads of one local variable.
+func sameParamsValue(a, v ssa.Value, vk string) bool {
+	if a == v {
+		return true
+	}
+	la, ok1 := a.(*ssa.UnOp)
+	lv, ok2 := v.(*ssa.UnOp)
+	if ok1 && ok2 && la.X == lv.X {
+		if _, isAlloc := la.X.(*ssa.Alloc); isAlloc {
+			return true
+		}
+	}
+	return false
 }
